@@ -326,24 +326,34 @@ func (p *queryPlan) processClause(ctx context.Context, cls *semantic.GraphClause
 			})
 			return false, nil
 		}
-		t, err := triple.New(cls.S, cls.P, cls.O)
-		if err != nil {
-			return false, err
+		if len(p.tbl.Bindings()) == 0 || !cls.HasAlias() {
+			t, err := triple.New(cls.S, cls.P, cls.O)
+			if err != nil {
+				return false, err
+			}
+			gs := p.grfs
+			if outsideTimeBounds(cls.P, lo) {
+				// The time anchor of the clause lies outside the time bounds of the
+				// statement: the triple is not part of the data the query sees.
+				gs = nil
+			}
+			b, tbl, err := simpleExist(ctx, gs, cls, t, p.tracer)
+			if err != nil {
+				return false, err
+			}
+			if len(p.tbl.Bindings()) > 0 {
+				// The clause binds nothing and the table already has bindings: it is
+				// a condition on the rows found so far. They are all kept if some
+				// graph holds the triple, and none of them otherwise.
+				return b, nil
+			}
+			if err := p.tbl.AppendTable(tbl); err != nil {
+				return b, err
+			}
+			return b, nil
 		}
-		gs := p.grfs
-		if outsideTimeBounds(cls.P, lo) {
-			// The time anchor of the clause lies outside the time bounds of the
-			// statement: the triple is not part of the data the query sees.
-			gs = nil
-		}
-		b, tbl, err := simpleExist(ctx, gs, cls, t, p.tracer)
-		if err != nil {
-			return false, err
-		}
-		if err := p.tbl.AppendTable(tbl); err != nil {
-			return b, err
-		}
-		return b, nil
+		// The table already has bindings and the clause binds its aliases: it is
+		// processed like any other clause below, its aliases being new bindings.
 	}
 
 	exist, total := 0, 0
